@@ -9,16 +9,23 @@ import driver
 
 cap, jobs = int(sys.argv[1]), int(sys.argv[2])
 out = {}
-for crate in sys.argv[3:]:
+only = None
+args = sys.argv[3:]
+if args and args[0].startswith("--only="):
+    only = set(open(args[0][7:]).read().split())
+    args = args[1:]
+for crate in args:
     ms = driver.discover(crate)
-    names = sorted(n for n in ms if re.match(r"c\d\d[a-z]?_t_", n))
+    names = sorted(n for n in ms if re.match(r"c\d\d[a-z]?_[tx]_", n) and (only is None or n in only) and (only is not None or "_t_" in n))
     if not names:
         continue
     full = {n: (ms[n]["module"] + "::" if ms[n]["module"] else "") + n for n in names}
     fulls = [full[n] for n in names]
     logp = os.path.join(driver.OUT, f"sweep-{crate}.log")
-    text, rc, wall = driver.run_kani(crate, fulls, cap, jobs, 14, logp)
-    res = driver.parse_terse(text)
+    import time
+    t0 = time.time()
+    text, res = driver.run_kani_batched(crate, fulls, cap, jobs, 20, logp)
+    wall = time.time() - t0
     for n in names:
         r = res.get(full[n], {"verdict": "NONE", "time_s": None, "failed_checks": []})
         out[n] = (crate, r["verdict"], r.get("time_s"), r.get("failed_checks"))
